@@ -62,7 +62,7 @@ def check_big(case):
     if sk.shape != (p, p) or not np.array_equal(sk != 0, adj):
         raise Violation("skeleton_wrong", "skeleton wrong on the %d-node near-complete graph" % p)
     S = set(range(0, p, 2))
-    cl = must(lib(utils.is_clique, npints(set(S), len(S)), A), "is_clique")
+    cl = must(lib(utils.is_clique, npints(set(S), len(S), True), A), "is_clique")
     want_cl = not any(i in S and j in S for (i, j) in missing)
     if bool(cl) != want_cl:
         raise Violation("is_clique_wrong", "is_clique(even nodes) = %r, expected %r (missing %s)" % (cl, want_cl, missing))
@@ -163,7 +163,7 @@ def check(case):
 
     for Sl in case.get("subsets", []):
         Sset = set(Sl)
-        ind = np.asarray(must(lib(utils.induced_subgraph, npints(set(Sset), len(Sset) + p), A), "induced_subgraph"))
+        ind = np.asarray(must(lib(utils.induced_subgraph, npints(set(Sset), len(Sset) + p, True), A), "induced_subgraph"))
         mask = np.zeros((p, p), dtype=bool)
         for i in Sset:
             for j in Sset:
@@ -171,7 +171,7 @@ def check(case):
         want_ind = np.where(mask, A, 0)
         if ind.shape != (p, p) or not (ind == want_ind).all():
             raise Violation("induced_subgraph_wrong", "induced_subgraph(%s) = %s, expected %s; %s" % (sorted(Sset), ind.tolist(), want_ind.tolist(), ctx))
-        cl = must(lib(utils.is_clique, npints(set(Sset), len(Sset) + p + 1), A), "is_clique")
+        cl = must(lib(utils.is_clique, npints(set(Sset), len(Sset) + p + 1, True), A), "is_clique")
         want_cl = all(sk[a] >> b & 1 for a in Sset for b in Sset if a != b)
         if bool(cl) != want_cl:
             raise Violation("is_clique_wrong", "is_clique(%s) = %r, expected %r; %s" % (sorted(Sset), cl, want_cl, ctx))
